@@ -135,7 +135,7 @@ theorem ord_integral (rel : Dec → Dec → Bool) (x y : Json) (n m : Int)
   have fx := floatOfJson_integral hx
   have fy := floatOfJson_integral hy
   unfold ordOp
-  cases x <;> cases y <;> simp_all [integral, float64Operand]
+  cases x <;> cases y <;> simp_all [integral, float64Operand, nanVal, nanJson]
 
 /-- **`==` agrees with `>=` and `<=` taken together**, for integral numbers of any size. -/
 theorem c12_eq_coherent (x y : Json) (n m : Int) (hx : integral x = some n) (hy : integral y = some m) :
